@@ -458,6 +458,11 @@ pub const EXTREMES: &[&str] = &[
   "2147483647",
   // a list long enough for the library's merge sort, with items that are not ordered with the others
   "for i in 1..45 return if modulo(i, 3) = 0 then decimal(1000000000000000000000000000000.5, 10) else 50 - i",
+  // the zero with a sign, which no literal denotes: it is neither positive nor negative, and its text is not a machine integer's
+  "0 * -1",
+  // the smallest negative values of the machine integer types
+  "-2147483648",
+  "-9223372036854775808",
 ];
 
 fn build_extremes(results: &mut std::fs::File) -> Vec<Value> {
